@@ -2,7 +2,7 @@
    contents the model returns Ok, performs row*col*(1 + c_r) stores, and every entry
    of the result is the defining sum, accumulated from zero in increasing inner index
    (so the statement needs no algebraic law and also covers the float instance). *)
-From Coq Require Import List Arith Bool Lia.
+From Coq Require Import List Arith Bool Lia NArith.
 From LibaV Require Import C09.LinalgDefs C09.LinalgSpec C09.LinalgLemmas C09.LinalgTProofs.
 Import ListNotations.
 
@@ -64,6 +64,8 @@ Section MulP.
     Variables (row c_r col : nat) (X Y : list T).
     Hypothesis HX : length X = row * c_r.
     Hypothesis HY : length Y = c_r * col.
+    Hypothesis Urow : U32 row.
+    Hypothesis Ucol : U32 col.
 
     Definition tmm (i j t : nat) : T := mul (get X (i * c_r + t)) (get Y (t * col + j)).
 
@@ -144,7 +146,7 @@ Section MulP.
         forall i j, i < row -> j < col ->
           get (cells b) (i * col + j) = sum c_r (fun t => mul (get X (i * c_r + t)) (get Y (t * col + j))).
     Proof.
-      intros Hlen. unfold mulmm.
+      intros Hlen. unfold mulmm. rewrite (sz_mul_id row col) by u32.
       destruct (zero_out_ok row col b0 Hlen) as (b1 & H1 & Hn1 & HM1).
       rewrite H1. cbn [bind].
       destruct (while_ghost
@@ -177,6 +179,8 @@ Section MulP.
     Variables (c_r row col : nat) (X Y : list T).
     Hypothesis HX : length X = c_r * row.
     Hypothesis HY : length Y = c_r * col.
+    Hypothesis Urow : U32 row.
+    Hypothesis Ucol : U32 col.
 
     Definition tTm (i j t : nat) : T := mul (get X (t * row + i)) (get Y (t * col + j)).
 
@@ -249,7 +253,7 @@ Section MulP.
         forall i j, i < row -> j < col ->
           get (cells b) (i * col + j) = sum c_r (fun t => mul (get X (t * row + i)) (get Y (t * col + j))).
     Proof.
-      intros Hlen. unfold mulTm.
+      intros Hlen. unfold mulTm. rewrite (sz_mul_id row col) by u32.
       destruct (zero_out_ok row col b0 Hlen) as (b1 & H1 & Hn1 & HM1).
       rewrite H1. cbn [bind].
       destruct (while_ghost
@@ -283,6 +287,9 @@ Section MulP.
     Variables (row c_r col : nat) (X Y : list T).
     Hypothesis HX : length X = c_r * row.
     Hypothesis HY : length Y = col * c_r.
+    Hypothesis Urow : U32 row.
+    Hypothesis Ucr : U32 c_r.
+    Hypothesis Ucol : U32 col.
 
     Definition tTT (i j t : nat) : T := mul (get X (t * row + i)) (get Y (j * c_r + t)).
 
@@ -356,7 +363,7 @@ Section MulP.
         forall i j, i < row -> j < col ->
           get (cells b) (i * col + j) = sum c_r (fun t => mul (get X (t * row + i)) (get Y (j * c_r + t))).
     Proof.
-      intros Hlen. unfold mulTT.
+      intros Hlen. unfold mulTT. rewrite (sz_mul_id row col), (sz_mul_id col c_r) by u32.
       destruct (zero_out_ok row col b0 Hlen) as (b1 & H1 & Hn1 & HM1).
       rewrite H1. cbn [bind].
       destruct (while_ghost
@@ -390,6 +397,9 @@ Section MulP.
     Variables (row col c_r : nat) (X Y : list T).
     Hypothesis HX : length X = row * c_r.
     Hypothesis HY : length Y = col * c_r.
+    Hypothesis Urow : U32 row.
+    Hypothesis Ucol : U32 col.
+    Hypothesis Ucr : U32 c_r.
 
     Definition tmT (i j t : nat) : T := mul (get X (i * c_r + t)) (get Y (j * c_r + t)).
 
@@ -473,7 +483,7 @@ Section MulP.
         forall i j, i < row -> j < col ->
           get (cells b) (i * col + j) = sum c_r (fun t => mul (get X (i * c_r + t)) (get Y (j * c_r + t))).
     Proof.
-      intros Hlen. unfold mulmT.
+      intros Hlen. unfold mulmT. rewrite (sz_mul_id row col), (sz_mul_id col c_r) by u32.
       destruct (zero_out_ok row col b0 Hlen) as (b1 & H1 & Hn1 & HM1).
       rewrite H1. cbn [bind].
       destruct (while_ghost
